@@ -61,6 +61,9 @@ def cases(tier):
             for ct in compositions(2):
                 for vector in (False, True):
                     out.append(dict(kind="faces", link=list(kind), cf=list(cf), ct=list(ct), vector=vector, cy=[2]))
+    for cx in compositions(4):
+        for cz in compositions(2):
+            out.append(dict(kind="multi", cx=list(cx), cz=list(cz)))
     for k in range(1, 7):
         out.append(dict(kind="chunks", k=k))
     if tier == "thorough":
@@ -71,7 +74,7 @@ def cases(tier):
 
 
 def case(W, cfg):
-    return {"simple": case_simple, "metric": case_metric, "faces": case_faces, "chunks": case_chunks, "3d": case_3d}[cfg["kind"]](W, cfg)
+    return {"multi": case_multi, "simple": case_simple, "metric": case_metric, "faces": case_faces, "chunks": case_chunks, "3d": case_3d}[cfg["kind"]](W, cfg)
 
 
 class Counter:
@@ -160,6 +163,25 @@ def case_simple(W, cfg):
                 refuse = chunked_core and op != "cumsum" and (frm in ("inner", "outer") or to in ("inner", "outer"))
                 lab = "%s:%s:%s->%s" % (gname, op, frm, to)
                 compare(W, lab, lambda x, op=op: getattr(grid, op)(x, "X", to=to), (da,), (lz,), expect_refusal=refuse)
+
+
+def case_multi(W, cfg):
+    """several axes in one call: the refusal concerns only an axis that is itself chunked and involves inner/outer"""
+    import xgcm
+    ds = xr.Dataset(coords={"xc": np.arange(4) + 0.5, "xg": np.arange(4) * 1.0, "zc": np.arange(2) + 0.5, "zo": np.arange(3) * 1.0, "t": [0, 1]})
+    with warnings.catch_warnings():
+        warnings.simplefilter("ignore")
+        grid = xgcm.Grid(ds, coords={"X": {"center": "xc", "left": "xg"}, "Z": {"center": "zc", "outer": "zo"}}, periodic=["X"], boundary={"Z": "extend"}, autoparse_metadata=False)
+    a = W.data("a", (2, 2, 4))
+    da = xr.DataArray(a, dims=["t", "zc", "xc"], name="nm")
+    lz = dasked(da, {"xc": cfg["cx"], "zc": cfg["cz"]})
+    z_chunked = len(cfg["cz"]) > 1
+    for op in ("diff", "interp", "cumsum"):
+        for axes in (["X", "Z"], ["Z", "X"]):
+            lab = "multi:%s:%s" % (op, "".join(axes))
+            compare(W, lab, lambda x, op=op, axes=axes: getattr(grid, op)(x, axes, to={"X": "left", "Z": "outer"}), (da,), (lz,),
+                    expect_refusal=(z_chunked and op != "cumsum"))
+        compare(W, "multi:%s:X-only" % op, lambda x, op=op: getattr(grid, op)(x, "X", to="left"), (da,), (lz,))
 
 
 def case_metric(W, cfg):
